@@ -19,50 +19,6 @@ from .. import runcheck, problems, swrap
 from ..common import LEAN, write_if_changed
 
 
-# benign writable globals: legacy defaults (documented process-wide settings), verbosity flags, the hook table, constant
-# tables that are never written (f2c constants, name table, red-black sentinel, MT mag01), C++ runtime artefacts
-ALLOW = [r"^nlopt_local_search_alg_(non)?deriv$", r"^nlopt_local_search_maxeval$", r"^nlopt_stochastic_population$",
-         r"verbose$", r"^nlopt_verif_hooks$", r"^nlopt_algorithm_names$", r"^mag01", r"^ags_", r"^eps_res$", r"^evolvent_density$",
-         r"^stogo_verbose$", r"^nil$", r"^c__?\d+$", r"^c_b\d+$",
-         r"^completed\.\d+$", r"^__", r"^_ZT[IVS]", r"^_ZStL8__ioinit$", r"^_ZGV", r"^decode\.", r"^DW\.ref"]
-# known shared mutable state (finding, see known_findings.jsonl C16): StoGO's evaluation counters and clock origin
-KNOWN_SHARED = ["FC", "GC", "MacEpsilon", "StartTime"]
-
-
-def tr_globals(ctx):
-    """writable (.data/.bss) and TLS symbols of the freshly built library -> Generated/Globals.lean"""
-    bdir = getattr(ctx, "bdir", None)
-    if not bdir:
-        return {}
-    p = subprocess.run(["nm", "--defined-only", "-S", os.path.join(bdir, "libnlopt.a")], stdout=subprocess.PIPE, stderr=subprocess.DEVNULL)
-    writable, tls = set(), set()
-    for l in p.stdout.decode().split("\n"):
-        t = l.split()
-        if len(t) >= 3 and t[-2] in ("d", "D", "b", "B", "C"):
-            writable.add(t[-1])
-        elif len(t) >= 3 and t[-2] in ("l", "L") or (len(t) >= 3 and t[-2] in ("b", "d") and False):
-            tls.add(t[-1])
-    # TLS symbols: objdump marks them; nm shows them in .tbss/.tdata as 'b'/'d' too, so ask readelf
-    q = subprocess.run("for o in $(ar t %s); do :; done; readelf -sW %s 2>/dev/null | awk '$4==\"TLS\"{print $8}'" % (os.path.join(bdir, "libnlopt.a"), os.path.join(bdir, "libnlopt.a")),
-                       shell=True, stdout=subprocess.PIPE)
-    tls = set(x for x in q.stdout.decode().split("\n") if x)
-    writable -= tls
-    unlisted = sorted(s for s in writable if not any(re.search(a, s) for a in ALLOW) and s not in KNOWN_SHARED)
-    ctx.shared_found = sorted(s for s in writable if s in KNOWN_SHARED)
-    lean = ["/- GENERATED by vlib/props/C07.py (nm/readelf of the freshly built libnlopt.a) — do not edit -/", "namespace Nlopt.Gen", "",
-            "def writableGlobals : List String := [" + ", ".join('"%s"' % s for s in sorted(writable)) + "]",
-            "def tlsGlobals : List String := [" + ", ".join('"%s"' % s for s in sorted(tls)) + "]",
-            "def unlistedWritableGlobals : List String := [" + ", ".join('"%s"' % s for s in unlisted) + "]",
-            "def knownSharedMutableGlobals : List String := [" + ", ".join('"%s"' % s for s in ctx.shared_found) + "]",
-            "", "/-- every writable process-wide symbol of the library is on the allow-list of benign globals -/",
-            "theorem no_hidden_state : unlistedWritableGlobals = [] := by decide",
-            "/-- the random generator and the timer origin are thread-local -/",
-            "theorem rng_and_timer_are_tls : (tlsGlobals.contains \"mt\" && tlsGlobals.contains \"mti\") = true := by decide",
-            "", "end Nlopt.Gen", ""]
-    write_if_changed(os.path.join(LEAN, "NloptModel", "Generated", "Globals.lean"), "\n".join(lean))
-    return {"Globals": {"writable": sorted(writable), "tls": sorted(tls), "unlisted": unlisted}}
-
-
 def same(a, b):
     if len(a.calls) != len(b.calls):
         return "number of callbacks differs: %d vs %d" % (len(a.calls), len(b.calls))
@@ -92,7 +48,7 @@ def mon_settings(ri):
 def run(ctx):
     from translate import alglists
     ctx.bdir = ctx.repo_stage()
-    ctx.lean_stage(["Wrap:optimize_preserves|optimize_nof", "Generated/Globals"], translators=[alglists.run, tr_globals])
+    ctx.lean_stage(["Wrap:optimize_preserves|optimize_nof", "Generated/Globals"])
     # the generated theorems
     from ..common import audit_props
     bdir = ctx.bdir
